@@ -190,6 +190,7 @@ func init() {
 			{Name: "bucket-clock", Serial: true, Timeout: 60 * time.Second, Count: func(t string) int { return tierN(t, 60, 600) }, Run: func(c *sup.Ctx) {
 				bucketClockScenario(c, rng.New(c.Seed, rng.HashString("C04bucket"), uint64(c.Local)))
 			}},
+			crashPart("reopen-clock", 40, 400, reopenClockScenario),
 			{Name: "hlc-scripts-race", Race: true, Timeout: 120 * time.Second, Count: func(t string) int { return tierN(t, 18, 90) }, Run: func(c *sup.Ctx) {
 				hlcScenario(c, rng.New(c.Seed, rng.HashString("C04hlcrace"), uint64(c.Local)))
 			}},
